@@ -189,6 +189,15 @@ pub fn round_trip_controls() -> Vec<(String, CtlV)> {
     }
     big.push(var_value(11, 37));
     out.push(("size-65535".into(), ctl([1, 2, 3, 4], big)));
+    // the value's own `length` field is an input the encoder must ignore (the emitted Length is the emitted size)
+    for l in [1i64, 11, 12, 20, 21, 255, 256, 65535] {
+        let mut z = ctl([1, 2, 3, 4], vec![]);
+        z.length = l;
+        out.push((format!("zlb-length{l}"), z));
+        let mut m = ctl([5, 6, 7, 8], vec![mt_value(2), var_value(7, 3)]);
+        m.length = l;
+        out.push((format!("mt-length{l}"), m));
+    }
     out
 }
 pub fn c03(ctx: &mut Ctx) {
